@@ -64,10 +64,11 @@ def file_text(g, i):
             name = "mm%d" % i if tgt == "missing" else "m%d" % tgt
             t += "%s %s '%s'\n" % (kind, name, path)
     if f["v"]:
-        t += "v := 'F%d'\n" % i
+        # `av` refers forward (in name order) to this module's own `v`; a `v` of another module must not get in between
+        t += "av := v\nv := 'F%d'\n" % i
     t += "\nu%d:\n  [U%d]\n" % (i, i)
     if f["v"]:
-        t += "\ns%d:\n  [S%d] {{v}}\n" % (i, i)
+        t += "\ns%d:\n  [S%d] {{v}} {{av}}\n" % (i, i)
     if f["r"]:
         t += "\nr:\n  [R%d] \n" % i
     return t
@@ -182,6 +183,8 @@ def parse_tree(j, g):
             namepaths[rn] = rv.get("namepath")
         vars_ = {}
         for vn, vv in m["assignments"].items():
+            if vn == "av":
+                continue        # observed through the recipes that print it
             val = vv["value"]
             vars_[vn] = int(val[1:]) if isinstance(val, str) and val.startswith("F") else None
         return {"name": name, "recipes": recipes, "namepaths": namepaths, "vars": vars_, "subs": {k: rec(v, k) for k, v in m["modules"].items()}}
@@ -224,7 +227,7 @@ def run_case(g):
                                            stderr=subprocess.PIPE, timeout=10)
                         e = C.read_vsh_log(logp)
                         outs.append((q.returncode, e[0]["argv"][2].strip() if e else None))
-                    res["paths"].append({"module": mname, "recipe": rn, "colon": outs[0], "spaced": outs[1]})
+                    res["paths"].append({"module": mname, "recipe": rn, "colon": outs[0], "spaced": outs[1], "own_v": sub["vars"].get("v")})
             # recipes of SIBLING modules on one command line see their own module's variables
             res["siblings"] = []
             mods = [(mn, sub) for mn, sub in res["tree"]["subs"].items() if any(x.startswith("s") for x in sub["recipes"])]
@@ -237,7 +240,8 @@ def run_case(g):
                                    stdin=subprocess.DEVNULL, stdout=subprocess.PIPE, stderr=subprocess.PIPE, timeout=10)
                 e = [x["argv"][2].strip() for x in C.read_vsh_log(logp)]
                 res["siblings"].append({"argv": [ma + "::" + ra, mb + "::" + rb], "ran": e, "same_file": sa["recipes"][ra] == sb["recipes"][rb],
-                                        "want": ["[S%s] F%s" % (ra[1:], sa["vars"].get("v")), "[S%s] F%s" % (rb[1:], sb["vars"].get("v"))]})
+                                        "want": ["[S%s] F%s F%s" % (ra[1:], sa["vars"].get("v"), sa["vars"].get("v")),
+                                                 "[S%s] F%s F%s" % (rb[1:], sb["vars"].get("v"), sb["vars"].get("v"))]})
         else:
             kind = "other"
             for pat, k in [("is circular", "circular"), ("Could not find source file for import", "missing"),
@@ -399,6 +403,11 @@ def run(report):
                         break
                 for pth in r.get("paths", []):
                     stats["path_form_pairs"] += 1
+                    if pth["recipe"].startswith("s") and pth["colon"][1] is not None and pth.get("own_v") is not None and \
+                            pth["colon"][1].split()[1:] != ["F%s" % pth["own_v"]] * 2:
+                        report.failure("c15-module-variable", "`%s::%s` prints %r: both values are the module's own `v` = F%s (a forward reference inside a module must not see another module's variable)" % (
+                            pth["module"], pth["recipe"], pth["colon"][1], pth["own_v"]), replay)
+                        break
                     if pth["colon"] != pth["spaced"] or pth["colon"][0] != 0:
                         report.failure("c15-path-forms", "`%s::%s` and `%s %s` behave differently: %s vs %s" % (
                             pth["module"], pth["recipe"], pth["module"], pth["recipe"], pth["colon"], pth["spaced"]), replay)
